@@ -664,11 +664,12 @@ class SwitchController(MpfController):
         del self._timed_switch_handler_delay[switch]
         next_event_time = False
         current_time = self.machine.clock.get_time()
-        for k in list(self._active_timed_switches[switch].keys()):
+        timed_switches = self._active_timed_switches[switch]
+        for k in list(timed_switches.keys()):
             if k <= current_time:  # change to generator?
-                for entry in list(self._active_timed_switches[switch][k]):
+                for entry in list(timed_switches[k]):
                     # check if removed by previous entry
-                    if entry not in self._active_timed_switches[switch][k]:
+                    if entry not in timed_switches[k]:
                         continue
                     if self._debug_to_console or self._debug_to_file:
                         self.debug_log(
@@ -676,7 +677,11 @@ class SwitchController(MpfController):
                             " State: %s, ms: %s", switch.name,
                             entry.state, entry.ms)
                     entry.callback()
-                del self._active_timed_switches[switch][k]
+                    if self._active_timed_switches.get(switch) is not timed_switches:
+                        # the callback changed the state of this switch. all remaining entries got cancelled
+                        self.machine.events.process_event_queue()
+                        return
+                del timed_switches[k]
             else:
                 if not next_event_time or next_event_time > k:
                     next_event_time = k
